@@ -48,6 +48,7 @@ class Clause(object):
         self.desc = desc
         self.obs = []
         self.notes = []
+        self.errored = False
 
     # -- recording
     def _add(self, ok, fi, node, what, witness=None, tag=None, kind='path'):
@@ -89,10 +90,13 @@ class Clause(object):
 
     def __exit__(self, et, ev, tb):
         if et is not None:
-            if issubclass(et, AnalysisError) and any(not o.ok for o in self.obs):
-                # the rule already found a concrete violation before it lost track of the
-                # code: report the violation (exit 1) rather than the analysis error
+            if issubclass(et, AnalysisError):
+                # a clause that loses track of the code does not silence the other clauses: it is
+                # recorded, the run goes on, and the final status is 1 if any clause found a concrete
+                # violation, else 2 (never a silent pass)
                 self.notes.append('analysis stopped early: %s' % ev)
+                self.run.errors.append('%s-%s: %s' % (self.run.prop, self.cid, ev))
+                self.errored = True
                 self.run.clauses.append(self)
                 return True
             return False
@@ -113,6 +117,7 @@ class Run(object):
         self.clauses = []
         self.t0 = time.time()
         self.extra = {}
+        self.errors = []
         self.assumptions = []
         self.trusted = []
 
@@ -212,9 +217,13 @@ def emit(run, known, out, evidence_path=None, selftest=None, quiet=False):
         out('  %s %s %s-%s %s: %s' % (o.loc, o.unit, o.prop, o.clause, o.rule, o.what))
         if o.witness:
             out('  witness: %s' % o.witness)
+    for e in run.errors:
+        out('%s property=%s %s' % ('ANALYSIS-NOTE' if viol_new else 'ANALYSIS-ERROR', run.prop, e))
     if evidence_path:
         write_evidence(run, evidence_path, viol_new, known_hits, selftest)
-    return 1 if viol_new else 0
+    if viol_new:
+        return 1
+    return 2 if run.errors else 0
 
 
 def write_evidence(run, path, viol_new, known_hits, selftest):
@@ -248,7 +257,7 @@ def write_evidence(run, path, viol_new, known_hits, selftest):
         'trusted_base': run.trusted,
         'clauses': [{'clause': '%s-%s' % (run.prop, c.cid), 'rule': c.rule, 'what': c.desc,
                      'instances': len(c.obs), 'floor': c.floor,
-                     'violated': sum(1 for o in c.obs if not o.ok),
+                     'violated': sum(1 for o in c.obs if not o.ok), 'analysis_error': bool(c.errored),
                      'notes': c.notes} for c in run.clauses],
         'units_analysed': units,
         'source_digests': run.repo.digests(),
